@@ -440,6 +440,18 @@ def run(R):
     okw = len(refs) == 1 and q.src(refs[0].args[0]) == "self" and len(refs[0].args) == 2 and q.src(refs[0].args[1]) == "functools.partial(clear_cache, instance_key)"
     R.check(okw, "C13.INSTANCE", nf.qualname + ":weakref", R.site(nf),
             "a weak reference to the instance is registered with a callback bound to its key", "no weakref callback bound to the instance's key is registered")
+    # ... and every entry that is created holds that weak reference: an entry made without one (instances that cannot be weakly
+    # referenced: __slots__, slotted dataclasses, named tuples) is never removed, and the next object allocated at the dead
+    # instance's address is served the dead instance's values
+    for v_ in entry_vals:
+        e0 = v_.elts[0] if isinstance(v_, ast.Tuple) and v_.elts else None
+        srcs = [e0] if not isinstance(e0, ast.Name) else [vv for kk, vv in common.assigned_values(nf.node, e0.id)]
+        okr = bool(srcs) and all(isinstance(x, ast.Call) and q.call_name(x) == "weakref.ref" and x.args and q.src(x.args[0]) == "self" and len(x.args) == 2 for x in srcs)
+        R.check(okr, "C13.INSTANCE", nf.qualname + ":entry-ref", R.site(nf, v_),
+                "every per-instance entry is created together with the weak reference whose callback removes it",
+                "an entry can be created without a weak reference to its instance (%s): it outlives the instance, and since the key is id(self), a new "
+                "instance allocated at the same address is answered from the dead instance's cache"
+                % ", ".join(sorted(set(q.src(x)[:30] if x is not None else "?" for x in srcs if not (isinstance(x, ast.Call) and q.call_name(x) == "weakref.ref")))))
     cc = cf.nested.get("clear_cache")
     R.need(cc is not None, "anchor vanished: clear_cache")
     dels = [n for n in ast.walk(cc.node) if isinstance(n, ast.Delete)]
